@@ -1288,7 +1288,9 @@ impl Connection {
     ///
     /// This can be useful for testing key updates, as they otherwise only happen infrequently.
     pub fn force_key_update(&mut self) {
-        if !self.state.is_established() {
+        if !self.state.is_established() || self.spaces[SpaceId::Handshake].crypto.is_some() {
+            // Key updates must not be initiated before the handshake is confirmed (RFC 9001 §6.1);
+            // the peer would close the connection with KEY_UPDATE_ERROR.
             debug!("ignoring forced key update in illegal state");
             return;
         }
